@@ -507,6 +507,46 @@ def recordAfterFault (w : RecordWriter) (old new : List UInt8) (k : Nat) : List 
   | .atomic => if new.length + 1 < k then new else old
   | .inplace => if k = 0 then old else new.take (k - 1)
 
+/-! ### The two writers as operations on a file system of byte files
+
+Metadata files as byte strings (`BFS`).  The steps of `writeAtomicAt(dirFd,
+target, data)` (write_atomic_linux.go): `tmp := target + ".tmp"`;
+`writeFileAt(tmp)` = open with O_CREAT|O_TRUNC (the temp file exists, empty),
+then the bytes; `renameat(tmp, target)`.  A crash or an I/O error can stop the
+sequence after any number `k` of units of progress: unit 1 is the open, units
+`2 … n+1` the `n` bytes (a failed write leaves a prefix), unit `n+2` the rename.
+
+OS ASSUMPTION, stated once, as the semantics of `BFS.rename`: `rename(2)` is
+atomic — there is no observable state between "target holds what it held" and
+"target holds what the source held, the source name is gone". -/
+
+abbrev BFS := Path → Option (List UInt8)
+
+def BFS.set (fs : BFS) (p : Path) (b : List UInt8) : BFS := fun q => if q = p then some b else fs q
+
+/-- `rename(2)` of one file: atomic replacement (the OS assumption) -/
+def BFS.rename (fs : BFS) (src dst : Path) : BFS :=
+  fun q => if q = dst then fs src else if q = src then none else fs q
+
+/-- `target + ".tmp"`: the sibling with `.tmp` appended to the last component -/
+def tmpPath (target : Path) : Path := target.dropLast ++ [target.getLast?.getD "" ++ ".tmp"]
+
+/-- the file system after `k` units of progress of `writeAtomicAt` -/
+def writeAtomicCut (fs : BFS) (target : Path) (new : List UInt8) (k : Nat) : BFS :=
+  if k = 0 then fs
+  else if k ≤ new.length + 1 then fs.set (tmpPath target) (new.take (k - 1))
+  else (fs.set (tmpPath target) new).rename (tmpPath target) target
+
+/-- … of `os.WriteFile(target)` (`Write`/`WriteRaw`/`WriteRawBytes`): unit 1 is
+the open with O_TRUNC, units `2 … n+1` the bytes -/
+def writeInplaceCut (fs : BFS) (target : Path) (new : List UInt8) (k : Nat) : BFS :=
+  if k = 0 then fs else fs.set target (new.take (k - 1))
+
+def writeCut (w : RecordWriter) (fs : BFS) (target : Path) (new : List UInt8) (k : Nat) : BFS :=
+  match w with
+  | .atomic => writeAtomicCut fs target new k
+  | .inplace => writeInplaceCut fs target new k
+
 /-! ## The compile-time duplicate-name check (compile_types.go `StructType.compile`) -/
 
 /-- `StructType.compile`'s duplicate check as a decidable predicate: the
